@@ -156,8 +156,8 @@ class P(Prop):
         if wt:
             self.fail("search", "insert_registers-function", f"with flops replaced by wires: {wt}", case)
             return
-        if c.outputs() != w.outputs() or not c.inputs() <= w.inputs():
-            self.fail("search", "insert_registers-io", "io changed", case)
+        if c.outputs() != w.outputs() or not c.inputs() <= w.inputs() or not (w.inputs() - c.inputs()) <= {"clk"}:
+            self.fail("search", "insert_registers-io", f"io changed: inputs {sorted(w.inputs())} outputs {sorted(w.outputs())}", case)
 
     def check_acyclic_unroll(self, c):
         cj = c_to_json(c)
